@@ -112,11 +112,13 @@ def gen_cases(tier, seed):
                 t = dict({'kind': kind, 'size': size, 'subs': [{'provide_size': size}, {}]}, **extra)
                 cases.append({'seed': rng.randrange(1 << 30), 'min_part': 8, 'transfers': [t],
                               'config': dict(multipart_threshold=16, multipart_chunksize=8, io_chunksize=4, max_request_concurrency=2)})
-    # cancel before start
-    for kind, extra in gen.KINDS:
+    # cancel before start (also with a first subscriber whose on_done calls back into its own future: the other subscribers' on_done
+    # still has to run)
+    for kind, extra in gen.KINDS + gen.KINDS:
         t0 = {'kind': 'upload', 'src': 'path', 'size': 5}
         t1 = dict({'kind': kind, 'size': rng.choice([5, 20])}, **extra)
-        t1['subs'] = [{}, {}]
+        t1['subs'] = rng.choice([[{}, {}], [{}, {}], [{'reenter': {'on_done': ['set_exception']}}, {}], [{'reenter': {'on_done': ['cancel', 'done']}}, {}],
+                                 [{}, {'reenter': {'on_done': ['result', 'set_exception']}}, {}]])
         cfg = dict(multipart_threshold=16, multipart_chunksize=8, io_chunksize=4, max_submission_concurrency=1)
         cases.append({'seed': rng.randrange(1 << 30), 'min_part': 8, 'config': cfg, 'transfers': [t0, t1], 'family': 'not-started',
                       'plan': {'gate': {'match': 't0/cb:on_queued', 'phase': 'before', 'count': 1, 'after_cancel_begin': True},
@@ -217,4 +219,5 @@ def evaluate(obs):
 
 
 def run_case(case):
-    return e2e.run_with(case, evaluate)
+    # (a transfer that never finishes has on_done callbacks that never run: a deadlock verdict is a violation here too)
+    return e2e.run_with(case, evaluate, liveness=True)
